@@ -6,9 +6,9 @@
 (* arguments; `pre` = what was observable before the interrupted operation.*)
 EXTENDS CommitLogCrash, TLC, Json
 
-CONSTANTS MaxOps, MaxPost, MaxRecs, MaxBatch, MaxEpoch, MaxHit, CapSet, RetSet, CompactSet, Keys, Taints
-VARIABLES phase, pre, last, nOps, nPost, nVal, hist
-mcvars == <<vars, phase, pre, last, nOps, nPost, nVal, hist>>
+CONSTANTS MaxOps, MaxPost, MaxRecs, MaxBatch, MaxEpoch, MaxHit, CapSet, RetSet, CompactSet, Keys, Taints, GenMode
+VARIABLES phase, pre, last, nOps, nPost, nVal, hist, pts
+mcvars == <<vars, phase, pre, last, nOps, nPost, nVal, hist, pts>>
 
 NoPre == [sc |-> <<>>, nw |-> -1, lastBase |-> 0, hw |-> -1, op |-> [a |-> "none"], p |-> ""]
 
@@ -25,11 +25,16 @@ Batch(n, e, key) == [i \in 1..n |-> [ep |-> e, val |-> nVal + i, key |-> key]]
 \* the operations offered in the current state
 Ops == IF ~mem.up THEN {} ELSE
   {[a |-> "Append", recs |-> Batch(n, CurEpoch + de, key)] :
-      n \in {n \in 1..MaxBatch : nVal + n <= MaxRecs}, de \in {d \in 0..1 : CurEpoch + d <= MaxEpoch}, key \in Keys}
+      n \in {n \in 1..MaxBatch : nVal + n <= MaxRecs}, de \in {d \in 0..1 : CurEpoch + d <= MaxEpoch},
+      key \in IF cfg.compact THEN Keys ELSE {"a"}}      \* keys only matter to compaction
   \cup {[a |-> "Truncate", o |-> o] : o \in {o \in 0..(NewestOf(mem) + 1) : o > mem.hw}}
   \cup {[a |-> "SetHW", h |-> h] : h \in (mem.hw + 1)..NewestOf(mem)}
   \cup {[a |-> "NewLeaderEpoch", e |-> CurEpoch + 1] : x \in {1} \cap {y \in {1} : CurEpoch + 1 <= MaxEpoch}}
   \cup {[a |-> "Checkpoint"], [a |-> "Clean"], [a |-> "Reopen"]}
+
+\* the crash sites of an operation: every marker of its plan, as (point, occurrence)
+Sites(op) == LET ps == PointsOf(fs, mem, op) IN
+             {[p |-> ps[i], n |-> Cardinality({j \in 1..i : ps[j] = ps[i]})] : i \in 1..Len(ps)}
 
 Snapshot(op, p) == [sc |-> Sc, nw |-> NewestOf(mem), lastBase |-> Last(mem.segs).base, hw |-> mem.hw, op |-> op, p |-> p]
 
@@ -38,7 +43,7 @@ MCInit ==
   /\ LET R == RecoverFS([lf |-> <<>>, xf |-> <<>>, hwf |-> NoHW, epf |-> <<>>]) IN fs = R.fs /\ mem = R.mem
   /\ obs = [a |-> "Open", ret |-> <<>>, err |-> ""]
   /\ phase = "pre" /\ pre = NoPre /\ last = [a |-> "Open"]
-  /\ nOps = 0 /\ nPost = 0 /\ nVal = 0 /\ hist = <<>>
+  /\ nOps = 0 /\ nPost = 0 /\ nVal = 0 /\ hist = <<>> /\ pts = {}
 
 Count(op) == IF op.a = "Append" THEN Len(op.recs) ELSE 0
 
@@ -46,32 +51,42 @@ MCOp(op) ==
   /\ phase = "pre" /\ nOps < MaxOps
   /\ DoOp(op)
   /\ last' = op /\ nOps' = nOps + 1 /\ nVal' = nVal + Count(op) /\ hist' = Append(hist, op)
+  /\ pts' = IF GenMode THEN pts \cup RangeOf(PointsOf(fs, mem, op)) ELSE pts
   /\ UNCHANGED <<phase, pre, nPost>>
 
 MCCrash(op, p, n) ==
+  /\ ~GenMode
   /\ phase = "pre" /\ nOps < MaxOps
   /\ DoCrash(op, p, n)
   /\ phase' = "down" /\ pre' = Snapshot(op, p)
   /\ last' = [a |-> "Crash", op |-> op, p |-> p, n |-> n]
   /\ nVal' = nVal + Count(op) /\ hist' = Append(hist, last')
-  /\ UNCHANGED <<nOps, nPost>>
+  /\ UNCHANGED <<nOps, nPost, pts>>
 
 MCRecover ==
   /\ phase = "down"
   /\ DoRecover
   /\ phase' = "post" /\ last' = [a |-> "Recover"] /\ hist' = Append(hist, last')
-  /\ UNCHANGED <<pre, nOps, nPost, nVal>>
+  /\ UNCHANGED <<pre, nOps, nPost, nVal, pts>>
 
 MCPost(op) ==
   /\ phase = "post" /\ nPost < MaxPost
   /\ DoOp(op)
   /\ last' = op /\ nPost' = nPost + 1 /\ nVal' = nVal + Count(op) /\ hist' = Append(hist, op)
   /\ pre' = [NoPre EXCEPT !.p = pre.p]
-  /\ UNCHANGED <<phase, nOps>>
+  /\ UNCHANGED <<phase, nOps, pts>>
+
+\* workload generation (GenMode): no crash, the follow-up operations are drawn
+\* after the workload; the harness then enumerates every crash point itself
+MCSwitch ==
+  /\ GenMode /\ phase = "pre" /\ nOps >= 1
+  /\ phase' = "post" /\ last' = [a |-> "Switch"] /\ hist' = Append(hist, last')
+  /\ UNCHANGED <<vars, pre, nOps, nPost, nVal, pts>>
 
 MCNext ==
+  \/ MCSwitch
   \/ \E op \in Ops : MCOp(op)
-  \/ \E op \in Ops, p \in Points, n \in 1..MaxHit : MCCrash(op, p, n)
+  \/ \E op \in Ops : \E c \in Sites(op) : c.n <= MaxHit /\ MCCrash(op, c.p, c.n)
   \/ MCRecover
   \/ \E op \in Ops : MCPost(op)
 
@@ -86,6 +101,7 @@ StateOK1(f, m) == StateOK(ScanOf(f, m), NewestOf(m), RdOf(f, m), m.ep)
 StepOK ==
   LET a == last' IN
   CASE a.a = "Crash" -> TRUE
+    [] a.a = "Switch" -> TRUE
     [] a.a = "Recover" ->
          pre.p \in Taints \/
          (/\ C05_Durable(pre.op, pre.sc, pre.lastBase, ScanOf(fs', mem'))
@@ -117,5 +133,6 @@ MemMatchesFiles ==
               Has(fs.lf, k) /\ Has(fs.xf, k) /\ mem.segs[i] = SegOf(mem.segs[i].base, fs.xf[k])
 
 MCView == <<cfg, fs, mem, phase, pre, nOps, nPost, nVal>>
+GenView == <<cfg, hist>>
 HistJson == ToJson(hist)
 =============================================================================
